@@ -178,7 +178,7 @@ def cases(tier):
     for how in ("add", "subtract", "add_negated"):
         out.append(dict(name=f"Date {how}", fn=date_ops, params=dict(how=how, ylo=win[0], yhi=win[1], Y=Y, M=M, W=W, D=D),
                         bounds=f"every Date in years {win[0]}..{win[1]} x years +-{Y} x months +-{M} x weeks +-{W} x days +-{D}"))
-    for kind in ("naive", "utc", "fixed", "zone"):
+    for kind in (("naive", "utc", "zone") if tier == "quick" else ("naive", "utc", "fixed", "zone")):
         for how in ("add", "subtract"):
             for shape in (("gap", "overlap") if kind == "zone" else (None,)):
                 w = zw if kind == "zone" else win
@@ -187,7 +187,7 @@ def cases(tier):
                                 bounds=f"every valid DateTime ({kind}) in years {w[0]}..{w[1]} x years +-1 x months +-14 x "
                                        "days +-40 x hours of either sign up to 2 days (at least one calendar unit non-zero)"))
     for kind in ("utc", "zone"):
-      for how in ("sub", "add_neg", "subtract"):
+      for how in (("sub", "add_neg") if (tier == "quick" and kind == "zone") else ("sub", "add_neg", "subtract")):
         for shape in (("gap", "overlap") if kind == "zone" else (None,)):
             w = zw if kind == "zone" else win
             out.append(dict(name=f"Duration {how} {kind} {shape or ''}", fn=duration_ops,
